@@ -5,6 +5,7 @@
 set -u
 id="$1"; dir="$2"
 wt="${WT:-/tmp/vwt}"
+[ -d "$wt" ] || git -C /repo worktree add -q --detach "$wt" HEAD   # scratch worktree outside /repo and /verif; remove with: git -C /repo worktree remove --force "$wt"
 export CARGO_NET_OFFLINE=true
 cd "$wt" || exit 2
 git checkout -q -- . ; git clean -fdq -e target
